@@ -281,13 +281,48 @@ func idxIn(in ssa.Instruction) int { return pointAt(in).Idx }
 // crossing a cut edge and never continuing past an instruction for which stop is true
 // (stop instructions are barriers: e.g. a store that re-establishes an invariant).
 // It returns the list of blocks on a witness path and the target instruction, or nil.
+//
+// Minimal path feasibility: when one boolean SSA value is tested by several branches of the
+// function (go/ssa does this for `a || (b && c)` chains over local flags), a path may not
+// take contradicting outcomes for it; the assumption is dropped when the path re-enters the
+// block defining the value (a new loop iteration recomputes it). No other path condition is
+// tracked — this is graph reachability, not symbolic execution.
 func reach(start point, target func(ssa.Instruction) bool, cut map[edge]bool, stop func(ssa.Instruction) bool) ([]*ssa.BasicBlock, ssa.Instruction) {
-	type item struct {
-		b    *ssa.BasicBlock
-		from int
+	fn := start.Block.Parent()
+	// values tested more than once
+	tested := map[ssa.Value]int{}
+	for _, b := range fn.Blocks {
+		if len(b.Instrs) == 0 {
+			continue
+		}
+		if i, ok := b.Instrs[len(b.Instrs)-1].(*ssa.If); ok {
+			ci := decompose(i.Cond)
+			if ci.Op == token.ILLEGAL {
+				tested[ci.Root]++
+			}
+		}
 	}
-	prev := map[*ssa.BasicBlock]*ssa.BasicBlock{}
-	visited := map[*ssa.BasicBlock]bool{}
+	type state struct {
+		b   *ssa.BasicBlock
+		key string
+	}
+	type node struct {
+		st     state
+		from   int
+		assume map[ssa.Value]bool
+		prev   *node
+	}
+	keyOf := func(m map[ssa.Value]bool) string {
+		if len(m) == 0 {
+			return ""
+		}
+		var parts []string
+		for v, t := range m {
+			parts = append(parts, fmt.Sprintf("%s=%v", v.Name(), t))
+		}
+		sort.Strings(parts)
+		return strings.Join(parts, ",")
+	}
 	scan := func(b *ssa.BasicBlock, from int) (ssa.Instruction, bool) {
 		for i := from; i < len(b.Instrs); i++ {
 			in := b.Instrs[i]
@@ -300,45 +335,77 @@ func reach(start point, target func(ssa.Instruction) bool, cut map[edge]bool, st
 		}
 		return nil, false
 	}
-	mkpath := func(b *ssa.BasicBlock) []*ssa.BasicBlock {
+	mkpath := func(n *node) []*ssa.BasicBlock {
 		var p []*ssa.BasicBlock
-		for x := b; x != nil; x = prev[x] {
-			p = append([]*ssa.BasicBlock{x}, p...)
-			if x == start.Block && prev[x] == nil {
-				break
-			}
+		for x := n; x != nil; x = x.prev {
+			p = append([]*ssa.BasicBlock{x.st.b}, p...)
 		}
 		return p
 	}
-	queue := []item{{start.Block, start.Idx}}
+	visited := map[state]bool{}
+	queue := []*node{{st: state{start.Block, ""}, from: start.Idx, assume: map[ssa.Value]bool{}}}
 	first := true
 	for len(queue) > 0 {
-		it := queue[0]
+		n := queue[0]
 		queue = queue[1:]
 		if !first {
-			if visited[it.b] {
+			if visited[n.st] {
 				continue
 			}
-			visited[it.b] = true
-		}
-		if hit, stopped := scan(it.b, it.from); hit != nil {
-			return mkpath(it.b), hit
-		} else if stopped {
-			first = false
-			continue
+			visited[n.st] = true
 		}
 		first = false
-		for slot, s := range it.b.Succs {
-			if cut[edge{it.b, slot}] {
+		if hit, stopped := scan(n.st.b, n.from); hit != nil {
+			return mkpath(n), hit
+		} else if stopped {
+			continue
+		}
+		var ci condInfo
+		hasIf := false
+		if len(n.st.b.Instrs) > 0 {
+			if i, ok := n.st.b.Instrs[len(n.st.b.Instrs)-1].(*ssa.If); ok {
+				ci = decompose(i.Cond)
+				hasIf = ci.Op == token.ILLEGAL && tested[ci.Root] > 1
+			}
+		}
+		for slot, succ := range n.st.b.Succs {
+			if cut[edge{n.st.b, slot}] {
 				continue
 			}
-			if visited[s] {
+			as := n.assume
+			if hasIf {
+				val := (slot == 0) != ci.Neg // value of Root on this edge
+				if prev, ok := as[ci.Root]; ok && prev != val {
+					continue // contradicts an earlier test of the same value
+				}
+				as = map[ssa.Value]bool{}
+				for k, v := range n.assume {
+					as[k] = v
+				}
+				as[ci.Root] = val
+			}
+			// entering succ recomputes the values it defines
+			drop := false
+			for v := range as {
+				if in, ok := v.(ssa.Instruction); ok && in.Block() == succ {
+					drop = true
+				}
+			}
+			if drop {
+				as2 := map[ssa.Value]bool{}
+				for v, t := range as {
+					if in, ok := v.(ssa.Instruction); ok && in.Block() == succ {
+						continue
+					}
+					as2[v] = t
+				}
+				as = as2
+			}
+			st := state{succ, keyOf(as)}
+			if visited[st] {
 				continue
 			}
-			if _, ok := prev[s]; !ok && s != start.Block {
-				prev[s] = it.b
-			}
-			queue = append(queue, item{s, 0})
+			queue = append(queue, &node{st: st, from: 0, assume: as, prev: n})
 		}
 	}
 	return nil, nil
